@@ -13,6 +13,8 @@
 (*             order walks through every earlier configuration down to the    *)
 (*             initial one and reproduces every quantile (`hist`, `qs` are    *)
 (*             ghost records; the invariant is inductive).                    *)
+(*   RemStepRev, MessageRev   the other direction: encoding onto ANY valid     *)
+(*             configuration and decoding again restores it (second half).    *)
 (* Th = 2^(S-W-P), B = 2^W as in ChainStep.                                   *)
 EXTENDS ChainStep, Sequences
 
@@ -193,4 +195,182 @@ THEOREM Message == Spec => []Inv
     BY <2>1, <2>2 DEF Next
 <1>3. QED
   BY <1>1, <1>2, PTL DEF Spec
+
+-----------------------------------------------------------------------------
+(* The other direction (the chain coder used as an ENcoder): encoding a       *)
+(* symbol onto any valid remainders configuration whose bulk holds words      *)
+(* (< B) - unless that fails with OutOfRemainders - and decoding it again     *)
+(* restores exactly that configuration (RemStepRev), for messages of any      *)
+(* length (MessageRev).                                                       *)
+CfgInvW(x) == CfgInv(x) /\ \A i \in 1..Len(x.bulk) : x.bulk[i] < B
+CanEnc(x, p) == (x.head < p * Th) => (x.bulk # <<>>)              \* not OutOfRemainders
+
+LEMMA FrontAppend == ASSUME NEW s \in Seq(Nat), s # <<>>
+                     PROVE /\ SubSeq(s, 1, Len(s) - 1) \in Seq(Nat)
+                           /\ Append(SubSeq(s, 1, Len(s) - 1), s[Len(s)]) = s
+                           /\ s[Len(s)] \in Nat /\ Len(s) \in 1..Len(s)
+                           /\ Len(SubSeq(s, 1, Len(s) - 1)) = Len(s) - 1
+                           /\ \A i \in 1..(Len(s) - 1) : SubSeq(s, 1, Len(s) - 1)[i] = s[i]
+  OBVIOUS
+
+THEOREM RemStepRev ==
+    ASSUME NEW x, CfgInvW(x), NEW c \in Nat, NEW p \in Nat, p >= 1, p <= B, CanEnc(x, p)
+    PROVE  LET r == EncR(x, c, p)
+           IN /\ CfgInvW(r.cf)
+              /\ r.q \in Nat /\ r.q >= c /\ r.q < c + p
+              /\ DecR(r.cf, c, p, r.q) = x
+<1> DEFINE hr == x.head
+<1> DEFINE ne == x.bulk # <<>>
+<1> DEFINE w == IF ne THEN x.bulk[Len(x.bulk)] ELSE 0
+<1> DEFINE refill == hr < p * Th
+<1> DEFINE hr0 == IF refill THEN hr * B + w ELSE hr
+<1> DEFINE q == c + (hr0 % p)
+<1> DEFINE hr1 == hr0 \div p
+<1> DEFINE hd == hr1 * p + (q - c)
+<1> DEFINE flush == hd >= Th * B
+<1> DEFINE b0 == IF refill THEN SubSeq(x.bulk, 1, Len(x.bulk) - 1) ELSE x.bulk
+<1>0. /\ hr \in Nat /\ x.bulk \in Seq(Nat) /\ x = [head |-> hr, bulk |-> x.bulk]
+      /\ hr >= Th /\ hr < Th * B /\ (refill => ne)
+      /\ \A i \in 1..Len(x.bulk) : x.bulk[i] < B
+  BY DEF CfgInvW, CfgInv, Cfgs, CanEnc
+<1>1. w \in Nat /\ w < B /\ B > 0 /\ p > 0
+  <2>1. B > 0 /\ p > 0
+    BY Widths, SMT
+  <2>2. CASE ne
+    BY <2>1, <2>2, <1>0, FrontAppend
+  <2>3. CASE ~ne
+    BY <2>1, <2>3
+  <2>4. QED
+    BY <2>2, <2>3
+<1>2. /\ hr1 >= Th /\ hr1 < Th * B
+      /\ q >= c /\ q < c + p
+      /\ hd = hr0
+      /\ flush <=> refill
+      /\ refill => (hd % B = w /\ hd \div B = hr)
+      /\ ~refill => hd = hr
+  BY <1>0, <1>1, Widths, RemaindersStepRev
+<1>3. hr0 \in Nat /\ hr1 \in Nat /\ q \in Nat
+  <2>1. hr * B \in Nat
+    BY <1>0, Widths, SMT
+  <2>2. hr0 \in Nat
+    BY <2>1, <1>0, <1>1, SMT
+  <2>3. hr1 \in Nat /\ hr0 % p \in Nat
+    BY <2>2, <1>1, DivModFacts
+  <2>4. QED
+    BY <2>2, <2>3, SMT
+<1>4. EncR(x, c, p) = [cf |-> [head |-> hr1, bulk |-> b0], q |-> q]
+  <2>1. refill => x.bulk[Len(x.bulk)] = w
+    BY <1>0
+  <2>2. QED
+    BY <2>1 DEF EncR
+<1>5. /\ b0 \in Seq(Nat) /\ \A i \in 1..Len(b0) : b0[i] < B
+      /\ refill => Append(b0, w) = x.bulk
+  <2>1. CASE refill
+    BY <2>1, <1>0, FrontAppend
+  <2>2. CASE ~refill
+    BY <2>2, <1>0
+  <2>3. QED
+    BY <2>1, <2>2
+<1>6. CfgInvW([head |-> hr1, bulk |-> b0])
+  BY <1>2, <1>3, <1>5 DEF CfgInvW, CfgInv, Cfgs
+<1>7. DecR([head |-> hr1, bulk |-> b0], c, p, q)
+        = IF flush THEN [head |-> hd \div B, bulk |-> Append(b0, hd % B)] ELSE [head |-> hd, bulk |-> b0]
+  BY DEF DecR
+<1>8. DecR([head |-> hr1, bulk |-> b0], c, p, q) = x
+  <2>1. CASE refill
+    <3>1. flush /\ hd \div B = hr /\ hd % B = w /\ Append(b0, w) = x.bulk
+      BY <2>1, <1>2, <1>5
+    <3>2. QED
+      BY <3>1, <1>7, <1>0
+  <2>2. CASE ~refill
+    <3>1. ~flush /\ hd = hr /\ b0 = x.bulk
+      BY <2>2, <1>2
+    <3>2. QED
+      BY <3>1, <1>7, <1>0
+  <2>3. QED
+    BY <2>1, <2>2
+<1>9. QED
+  BY <1>2, <1>3, <1>4, <1>6, <1>8
+
+(* The machine that encodes a whole message onto the remainders, one symbol per step. *)
+VARIABLE qs                                                       \* ghost: the quantiles handed to the compressed side
+varsR == <<cf, hist, syms, qs>>
+InitR == Init /\ qs = <<>>
+PushR(c, p) == /\ CanEnc(cf, p)
+               /\ cf' = EncR(cf, c, p).cf
+               /\ qs' = Append(qs, EncR(cf, c, p).q)
+               /\ hist' = Append(hist, cf)
+               /\ syms' = Append(syms, <<c, p, c>>)
+NextR == \E y \in Syms : PushR(y[1], y[2])
+SpecR == InitR /\ [][NextR]_varsR
+ASSUME StartW == CfgInvW(cf0)
+
+InvR == /\ CfgInvW(cf)
+        /\ hist \in Seq(Cfgs) /\ syms \in Seq(Syms) /\ qs \in Seq(Nat) /\ Len(hist) = Len(syms) /\ Len(qs) = Len(syms)
+        /\ (hist = <<>> => cf = cf0) /\ (hist # <<>> => hist[1] = cf0)
+        /\ \A i \in 1..Len(hist) : DecR(After(i), syms[i][1], syms[i][2], qs[i]) = hist[i]
+
+THEOREM MessageRev == SpecR => []InvR
+<1>1. InitR => InvR
+  BY StartW DEF InitR, Init, InvR, CfgInvW, CfgInv
+<1>2. InvR /\ [NextR]_varsR => InvR'
+  <2> SUFFICES ASSUME InvR, [NextR]_varsR PROVE InvR'
+    OBVIOUS
+  <2>1. CASE UNCHANGED varsR
+    BY <2>1 DEF InvR, varsR, After
+  <2>2. ASSUME NEW y \in Syms, PushR(y[1], y[2]) PROVE InvR'
+    <3> DEFINE c == y[1]
+    <3> DEFINE p == y[2]
+    <3> DEFINE n == Len(hist)
+    <3> DEFINE r == EncR(cf, c, p)
+    <3> DEFINE sy == <<c, p, c>>
+    <3>0. c \in Nat /\ p \in Nat /\ p >= 1 /\ p <= B /\ sy \in Syms
+      BY DEF Syms
+    <3>1. CfgInvW(cf) /\ cf \in Cfgs /\ hist \in Seq(Cfgs) /\ syms \in Seq(Syms) /\ qs \in Seq(Nat)
+          /\ Len(syms) = n /\ Len(qs) = n /\ n \in Nat
+      BY DEF InvR, CfgInvW, CfgInv
+    <3>2. CfgInvW(r.cf) /\ r.q \in Nat /\ DecR(r.cf, c, p, r.q) = cf
+      BY <2>2, <3>0, <3>1, RemStepRev DEF PushR
+    <3>3. /\ cf' = r.cf /\ hist' = Append(hist, cf) /\ syms' = Append(syms, sy) /\ qs' = Append(qs, r.q)
+      BY <2>2 DEF PushR
+    <3>4. /\ hist' \in Seq(Cfgs) /\ syms' \in Seq(Syms) /\ qs' \in Seq(Nat)
+          /\ Len(hist') = n + 1 /\ Len(syms') = n + 1 /\ Len(qs') = n + 1
+          /\ hist'[n + 1] = cf /\ syms'[n + 1] = sy /\ qs'[n + 1] = r.q
+          /\ \A i \in 1..n : hist'[i] = hist[i] /\ syms'[i] = syms[i] /\ qs'[i] = qs[i]
+      BY <3>0, <3>1, <3>2, <3>3
+    <3>5. (hist' # <<>>) /\ hist'[1] = cf0
+      <4>1. CASE n = 0
+        BY <4>1, <3>1, <3>4 DEF InvR
+      <4>2. CASE n > 0
+        BY <4>2, <3>1, <3>4 DEF InvR
+      <4>3. QED
+        BY <4>1, <4>2, <3>1
+    <3>6. ASSUME NEW i \in 1..(n + 1)
+          PROVE DecR(IF i = n + 1 THEN cf' ELSE hist'[i + 1], syms'[i][1], syms'[i][2], qs'[i]) = hist'[i]
+      <4>1. CASE i = n + 1
+        BY <4>1, <3>0, <3>1, <3>2, <3>3, <3>4
+      <4>2. CASE i = n
+        <5>1. i \in 1..n /\ After(i) = cf /\ hist'[i + 1] = cf /\ i # n + 1
+          BY <4>2, <3>1, <3>4 DEF After
+        <5>2. DecR(After(i), syms[i][1], syms[i][2], qs[i]) = hist[i]
+          BY <5>1 DEF InvR
+        <5>3. QED
+          BY <5>1, <5>2, <3>4
+      <4>3. CASE i < n
+        <5>1. i \in 1..n /\ i + 1 \in 1..n /\ After(i) = hist[i + 1] /\ i # n + 1
+          BY <4>3, <3>1 DEF After
+        <5>2. DecR(After(i), syms[i][1], syms[i][2], qs[i]) = hist[i]
+          BY <5>1 DEF InvR
+        <5>3. hist'[i + 1] = hist[i + 1] /\ hist'[i] = hist[i] /\ syms'[i] = syms[i] /\ qs'[i] = qs[i]
+          BY <5>1, <3>4
+        <5>4. QED
+          BY <5>1, <5>2, <5>3
+      <4>4. QED
+        BY <4>1, <4>2, <4>3, <3>1
+    <3>7. QED
+      BY <3>2, <3>3, <3>4, <3>5, <3>6 DEF InvR, After
+  <2>3. QED
+    BY <2>1, <2>2 DEF NextR
+<1>3. QED
+  BY <1>1, <1>2, PTL DEF SpecR
 =============================================================================
